@@ -101,6 +101,15 @@ func (g *StoreGen) extraTags(e *mocrelay.Event) {
 		// NIP-40 style expiration (past or future): stores know nothing about it
 		e.Tags = append(e.Tags, mocrelay.Tag{"expiration", strconv.FormatInt(Pick(g.R, []int64{1, 1000, 1600000000, 4102444800}), 10)})
 	}
+	if g.R.IntN(20) == 0 {
+		// one-byte tag names that are not letters (U+0000..U+0002), carrying the id of another
+		// event or an author's key: a tag is not an id and not an author
+		val := Pick(g.R, g.Authors)
+		if len(g.Offered) > 0 && g.R.IntN(2) == 0 {
+			val = Pick(g.R, g.Offered).ID
+		}
+		e.Tags = append(e.Tags, mocrelay.Tag{string(rune(g.R.IntN(3))), val})
+	}
 	n := g.R.IntN(3)
 	for i := 0; i < n; i++ {
 		// multi-letter names whose first letter is a filter key must not be mistaken for it
